@@ -165,6 +165,8 @@ def run(ctx):
         inp = {"program": res["text"], "operands": probes[res["id"]]["vecs"], "scalars": nbprobe.scalar_values(r["name"]), "values": probes[res["id"]].get("values")}
         if len(samples) < 6 and st == "ok":
             samples.append({"program": res["text"], "operands": site_src, "compiled": res.get("nb"), "interpreted": res.get("py")})
+        if st == "singular":
+            continue          # division by zero / non-finite interpreted value: outside the property's domain
         if st == "harness_error":
             ctx.broke("correspondence", f"compiled probe crashed: {res['text']}", res.get("why", ""))
             continue
